@@ -1,5 +1,5 @@
 SPECIFICATION TSpec
-CONSTANTS FixF2 = TRUE FixF3 = TRUE FixF14 = FALSE
+CONSTANTS FixF2 = TRUE FixF3 = TRUE FixF14 = TRUE
 INVARIANT Done
 POSTCONDITION Complete
 CHECK_DEADLOCK FALSE
